@@ -10,6 +10,7 @@ import (
 	"io/fs"
 	"os"
 	"path/filepath"
+	"strings"
 	"syscall"
 
 	"github.com/snower/slock/simrt/ssched"
@@ -160,6 +161,15 @@ func (d *Disk) CloseAll() {
 // mapping paths from srcRoot to dir. filter, if not nil, drops entries for which it returns false.
 // tear >= 0 applies only that many bytes of the last applied write.
 func (d *Disk) Materialise(node int, upto int, srcRoot, dir string, filter func(e *JEntry) bool, tear int) error {
+	under := func(p string) bool {
+		rel, err := filepath.Rel(srcRoot, p)
+		return err == nil && !strings.HasPrefix(rel, "..")
+	}
+	if node < 0 {
+		// every node that worked under srcRoot (successive incarnations on one data directory)
+		f0 := filter
+		filter = func(e *JEntry) bool { return under(e.Path) && (f0 == nil || f0(e)) }
+	}
 	mapPath := func(p string) string {
 		rel, err := filepath.Rel(srcRoot, p)
 		if err != nil {
@@ -170,14 +180,14 @@ func (d *Disk) Materialise(node int, upto int, srcRoot, dir string, filter func(
 	last := -1
 	for i := 0; i < upto && i < len(d.J); i++ {
 		e := &d.J[i]
-		if e.Node != node || e.Fail || (filter != nil && !filter(e)) {
+		if (node >= 0 && e.Node != node) || e.Fail || (filter != nil && !filter(e)) {
 			continue
 		}
 		last = i
 	}
 	for i := 0; i < upto && i < len(d.J); i++ {
 		e := &d.J[i]
-		if e.Node != node || e.Fail || (filter != nil && !filter(e)) {
+		if (node >= 0 && e.Node != node) || e.Fail || (filter != nil && !filter(e)) {
 			continue
 		}
 		p := mapPath(e.Path)
